@@ -321,7 +321,9 @@ def evaluate(prop, cases: list, tag: str):
             if v.get("hard"):
                 hard.add(i)
             continue
-        items.append((i, prop.coq_case(c, o)))
+        t = prop.coq_case(c, o)
+        for term in (t if isinstance(t, list) else [t]):     # one observed run may yield several Coq cases
+            items.append((i, term))
     dis, fail, errs = coq_verdicts(prop, items, tag)
     return obs, dis | pre_dis, fail | pre_fail, hard, errs
 
